@@ -184,10 +184,43 @@ class CallMixin:
             todo.extend(t.children())
         return False
 
+    def may_be_ref_to(self, term, a) -> bool:
+        """can the value `term` be (or structurally contain) a reference to the owned object at address `a`?  An owned object is
+        reachable only from this activation's locals and from other owned objects, so a value *read out of* a container or field (a
+        Select / function application) cannot be a reference to it; only a term built from ref(a) itself (possibly under If / pair) can."""
+        seen = set()
+        todo = [term]
+        while todo:
+            t = todo.pop()
+            i = t.get_id()
+            if i in seen:
+                continue
+            seen.add(i)
+            if not z3.is_app(t):
+                continue
+            k = t.decl().kind()
+            name = t.decl().name()
+            if k == z3.Z3_OP_ITE:
+                todo.extend(t.children()[1:])
+            elif k == z3.Z3_OP_DT_CONSTRUCTOR:
+                if name == "ref":
+                    if self.mentions(t.arg(0), a):
+                        return True
+                else:
+                    todo.extend(t.children())
+            # anything else (heap reads, uninterpreted functions, constants): not a reference to an owned object
+        return False
+
     def escape(self, st: State, v: SV):
         if not st.owned:
             return
-        st.owned = [a for a in st.owned if not self.mentions(v.t, a)]
+        cand = [a for a in st.owned if self.mentions(v.t, a)]
+        if not cand:
+            return
+        t = z3.simplify(v.t)
+        drop = {a.get_id() for a in cand if self.may_be_ref_to(t, a)}
+        if drop:
+            st.owned = [a for a in st.owned if a.get_id() not in drop]
 
     def escape_into(self, st: State, container_addr, v: SV):
         """storing v into a container: v escapes unless the container itself is still owned"""
